@@ -183,6 +183,9 @@ pub fn known_null_key_target(st: &MSettings, tgt: &[Row]) -> bool {
 pub fn known_fail_off_fast_path(st: &MSettings) -> bool {
     matches!(st.wm, Wm::Fail) && !st.fast_path()
 }
+pub fn known_update_if_partial(st: &MSettings) -> bool {
+    matches!(st.wm, Wm::UpdateIf(_)) && !st.full()
+}
 pub fn known_update_reads_assigned(asg: &[(usize, V)]) -> bool {
     for (i, (_, e)) in asg.iter().enumerate() {
         let mut cs = vec![];
